@@ -35,3 +35,153 @@ class Probe(edzed.SBlock):
             return self._retval
         finally:
             self.depth -= 1
+
+
+# ---------------------------------------------------------------------------------------------
+# Life-cycle probe blocks (C05, C08, C09, C14): every routine the simulator may call is logged
+# and can be given a behaviour per instance.
+
+class Fault(Exception):
+    """An exception injected by the harness."""
+
+
+def _now():
+    try:
+        return asyncio.get_running_loop().now_us
+    except RuntimeError:
+        return -1
+
+
+def _act(blk, action):
+    """
+    action: None | ('set', value) | ('raise', exception instance) | ('call', fn(block)) |
+            ('seq', [actions])
+    """
+    if action is None:
+        return None
+    kind = action[0]
+    if kind == 'set':
+        blk.set_output(action[1])
+        return None
+    if kind == 'raise':
+        raise action[1]
+    if kind == 'call':
+        return action[1](blk)
+    if kind == 'seq':
+        for a in action[1]:
+            _act(blk, a)
+        return None
+    raise ValueError(f"unknown action {action!r}")
+
+
+_lblock_cache = {}
+
+
+def lblock_class(*, persist=False, ainit=False, astop=False, maintask=False, ifv=False,
+                 regular=True):
+    """
+    Build (and cache) a probe SBlock class from the real add-ons.
+    persist: AddonPersistence; ainit/astop: init_async/stop_async defined (AddonAsync);
+    maintask: AddonMainTask; ifv: init_from_value defined (accepts initdef);
+    regular: init_regular defined.
+    Instances take: log (shared list), cfg (dict phase -> action, see _act; 'ainit' / 'astop' /
+    'maintask' -> (delay_seconds, action)).
+    """
+    key = (persist, ainit, astop, maintask, ifv, regular)
+    if key in _lblock_cache:
+        return _lblock_cache[key]
+    bases = []
+    if persist:
+        bases.append(edzed.AddonPersistence)
+    if maintask:
+        bases.append(edzed.AddonMainTask)
+    elif ainit or astop:
+        bases.append(edzed.AddonAsync)
+    bases.append(edzed.SBlock)
+
+    def __init__(self, *args, log, cfg=None, **kwargs):
+        self.log = log
+        self.cfg = dict(cfg or {})
+        self.calls = {}
+        self.events = []
+        super(cls, self).__init__(*args, **kwargs)
+
+    def _do(self, phase):
+        self.log.append((_now(), self.name, phase))
+        self.calls[phase] = self.calls.get(phase, 0) + 1
+        return _act(self, self.cfg.get(phase))
+
+    def start(self):
+        self._do('start')
+        super(cls, self).start()
+        self._do('started')
+
+    def stop(self):
+        self._do('stop')
+        super(cls, self).stop()
+
+    def _event(self, etype, data):
+        self.events.append((_now(), etype, dict(data)))
+        self._do('event')
+        if 'on_event' in self.cfg:
+            return self.cfg['on_event'](self, etype, data)
+        if 'value' in data:
+            self.set_output(data['value'])
+        else:
+            self.set_output(('ev', len(self.events)))
+        return self.cfg.get('retval', 'handled')
+
+    ns = {'__init__': __init__, '_do': _do, 'start': start, 'stop': stop, '_event': _event}
+    if regular:
+        def init_regular(self):
+            self._do('init_regular')
+        ns['init_regular'] = init_regular
+    if ifv:
+        def init_from_value(self, value):
+            self._do('init_from_value')
+            if 'init_from_value' not in self.cfg:
+                self.set_output(value)
+        ns['init_from_value'] = init_from_value
+    if persist:
+        def _restore_state(self, state):
+            self._do('restore')
+            if 'restore' not in self.cfg:
+                self.set_output(state)
+        ns['_restore_state'] = _restore_state
+    if ainit:
+        async def init_async(self):
+            self._do('init_async')
+            delay, action = self.cfg.get('ainit', (0, None))
+            if delay is None:
+                await asyncio.get_running_loop().create_future()    # never returns
+            if delay:
+                await asyncio.sleep(delay)
+            _act(self, action)
+            self._do('init_async_end')
+        ns['init_async'] = init_async
+    if astop:
+        async def stop_async(self):
+            self._do('stop_async')
+            delay, action = self.cfg.get('astop', (0, None))
+            if delay is None:
+                await asyncio.get_running_loop().create_future()
+            if delay:
+                await asyncio.sleep(delay)
+            _act(self, action)
+            self._do('stop_async_end')
+            await super(cls, self).stop_async()
+        ns['stop_async'] = stop_async
+    if maintask:
+        async def _maintask(self):
+            self._do('maintask')
+            delay, action = self.cfg.get('maintask', (None, None))
+            if delay is None:
+                await asyncio.get_running_loop().create_future()
+            await asyncio.sleep(delay)
+            _act(self, action)
+            self._do('maintask_end')
+        ns['_maintask'] = _maintask
+    name = 'LB' + ''.join(c for c, f in zip('PISMVR', key) if f)
+    cls = type(name, tuple(bases), ns)
+    _lblock_cache[key] = cls
+    return cls
